@@ -235,6 +235,11 @@ static void run(jv *s, int idx)
       jv *op = j_get(st, "open");
       for (int i = 0; op && i < op->n; i++) { int fd = (int) op->a[i]->i; char nm[32]; snprintf(nm, sizeof nm, "/o%d", fd); int f = open(mp(nm), O_RDWR | O_CREAT, 0600); dup2(f, fd); if (f != fd) close(f); }
     }
+    else if (!strcmp(fn, "psig")) {
+      jv *m2 = j_get(st, "mask"), *d2 = j_get(st, "disp");
+      sigset_t ms2; sigemptyset(&ms2); for (int i = 0; m2 && i < m2->n; i++) sigaddset(&ms2, (int) m2->a[i]->i); sigprocmask(SIG_SETMASK, &ms2, NULL);
+      for (int i = 0; d2 && i < d2->n; i++) { struct sigaction sa; memset(&sa, 0, sizeof sa); sa.sa_handler = d2->a[i]->a[1]->i == 1 ? SIG_IGN : noop_handler; sigaction((int) d2->a[i]->a[0]->i, &sa, NULL); }
+    }
     else if (!strcmp(fn, "start")) {
       jv *o = j_get(st, "o");
       jv *av0 = j_get(st, "argv");
